@@ -24,6 +24,11 @@ pub struct Resv {
     /// Z: the manager becomes busy and the rest of the swarm fills its command queue to the last
     /// slot; R: it comes back and works the queue off. Judged once it is back.
     pub busy: bool,
+    /// Two manager-only peers that advertise this mask (over the first three pieces) and keep
+    /// choking us: they make some pieces more common than others.
+    pub crowd: Option<u8>,
+    /// Bitfields (masks) the real peers send during setup; no Bitfield events in the search then.
+    pub preset: Option<Vec<u8>>,
 }
 
 #[derive(Default, Clone)]
@@ -50,7 +55,7 @@ pub struct Mon {
 impl Scenario for Resv {
     type Mon = Mon;
     fn name(&self) -> String {
-        format!("resv-p{}-n{}-{}-m{:?}{}{}", self.peers, self.pieces, if self.gated { "gated" } else { "direct" }, self.masks, if self.with_close { "-close" } else { "" }, if self.with_interest { "-int" } else { "" }) + if self.repeat_bitfield { "-rebf" } else { "" } + if self.busy { "-fullqueue" } else { "" }
+        format!("resv-p{}-n{}-{}-m{:?}{}{}", self.peers, self.pieces, if self.gated { "gated" } else { "direct" }, self.masks, if self.with_close { "-close" } else { "" }, if self.with_interest { "-int" } else { "" }) + if self.repeat_bitfield { "-rebf" } else { "" } + if self.busy { "-fullqueue" } else { "" } + &match (&self.crowd, &self.preset) { (Some(c), Some(p)) => format!("-crowd{}-preset{:?}", c, p), _ => String::new() }
     }
     fn cfg(&self) -> WorldCfg {
         WorldCfg { torrent: Torrent::new("t", 5, &[("f", 5 * self.pieces)], true), have: vec![], peers: (0..self.peers).map(|k| peer_cfg(k, k % 2 == 0)).collect(), gated: self.gated, stale: vec![] }
@@ -68,6 +73,23 @@ impl Scenario for Resv {
         mon.had = vec![false; self.pieces];
         if self.busy {
             w.add_mgr_peer();
+        }
+        if let Some(c) = self.crowd {
+            for _ in 0..2 {
+                let k = w.add_mgr_peer();
+                w.step(&Ev::MgrBitfield(k, (0..self.pieces).map(|i| i < 3 && c >> i & 1 == 1).collect()), &[]);
+            }
+        }
+        if let Some(pre) = &self.preset {
+            for k in 0..self.peers {
+                let bits: Vec<bool> = (0..self.pieces).map(|i| i < 3 && pre[k] >> i & 1 == 1).collect();
+                w.feed(k, &[Msg::Bitfield(refwire::bitfield_bytes(&bits))]);
+                mon.p[k].spoke = true;
+                mon.p[k].bitfields = 2;
+                for i in 0..3.min(self.pieces) {
+                    mon.p[k].advertised[i] = pre[k] >> i & 1 == 1;
+                }
+            }
         }
     }
     fn enabled(&self, w: &World, mon: &Mon, _depth: usize) -> Vec<String> {
@@ -233,6 +255,21 @@ impl Scenario for Resv {
             }
             mon.had[i] = have;
         }
+        // (a') what the manager counts as owned is stored and verified, and so is what it announces
+        for i in 0..self.pieces {
+            if snap.statuses[i] == Status::Have && !w.has_piece_file(i) {
+                return Some(("piece-counted-as-done-without-stored-data", format!("piece {} is Have but no verified piece file exists", i)));
+            }
+        }
+        for k in 0..self.peers {
+            for m in w.new_msgs(k) {
+                if let Msg::Have(i) = m {
+                    if !w.has_piece_file(*i as usize) {
+                        return Some(("have-for-unverified-piece", format!("Have({}) was written to peer {} but no verified file of that piece is stored", i, k)));
+                    }
+                }
+            }
+        }
         // (b) a reservation is backed by a connected, unchoking peer that was asked for the piece
         // (while the manager is busy its records lag behind by what is queued: judged when it is back)
         if w.manager_paused {
@@ -321,31 +358,39 @@ pub fn strip_counters(k: &str) -> String {
     out
 }
 
+/// The Have path with a choice: A and B hold piece 0, two choking manager-only peers hold piece 1;
+/// A is asked for 0 and chokes (or leaves), B idles and then announces piece 1: the rarer piece 0
+/// is chosen for B, and record, reservation, request and completion must all speak of that piece.
+/// Borrowed by C01, C10 and C11 (same invariants, reported under their ids).
+pub fn have_path_scenario(thorough: bool) -> (Resv, usize) {
+    (Resv { peers: 2, pieces: 13, gated: false, masks: vec![], with_close: true, with_interest: false, repeat_bitfield: false, busy: false, crowd: Some(2), preset: Some(vec![1, 1]) }, if thorough { 8 } else { 6 })
+}
+
 pub fn scenarios(thorough: bool) -> Vec<(Resv, usize)> {
     if thorough {
         vec![
-            (Resv { peers: 2, pieces: 3, gated: false, masks: vec![7, 1, 3], with_close: true, with_interest: true, repeat_bitfield: false, busy: false }, 9),
-            (Resv { peers: 2, pieces: 13, gated: false, masks: vec![7, 1], with_close: true, with_interest: false, repeat_bitfield: false, busy: false }, 9),
-            (Resv { peers: 3, pieces: 3, gated: false, masks: vec![7], with_close: false, with_interest: false, repeat_bitfield: false, busy: false }, 8),
-            (Resv { peers: 2, pieces: 3, gated: true, masks: vec![7, 3], with_close: false, with_interest: false, repeat_bitfield: false, busy: false }, 9),
-            (Resv { peers: 2, pieces: 13, gated: false, masks: vec![1, 3, 6], with_close: false, with_interest: false, repeat_bitfield: true, busy: false }, 7),
-            (Resv { peers: 2, pieces: 3, gated: false, masks: vec![1, 6], with_close: false, with_interest: true, repeat_bitfield: true, busy: false }, 8),
-            (Resv { peers: 2, pieces: 1, gated: true, masks: vec![1], with_close: false, with_interest: true, repeat_bitfield: false, busy: false }, 11),
-            (Resv { peers: 2, pieces: 3, gated: false, masks: vec![3], with_close: true, with_interest: false, repeat_bitfield: false, busy: true }, 8),
+            (Resv { peers: 2, pieces: 3, gated: false, masks: vec![7, 1, 3], with_close: true, with_interest: true, repeat_bitfield: false, busy: false, crowd: None, preset: None }, 9),
+            (Resv { peers: 2, pieces: 13, gated: false, masks: vec![7, 1], with_close: true, with_interest: false, repeat_bitfield: false, busy: false, crowd: None, preset: None }, 9),
+            (Resv { peers: 3, pieces: 3, gated: false, masks: vec![7], with_close: false, with_interest: false, repeat_bitfield: false, busy: false, crowd: None, preset: None }, 8),
+            (Resv { peers: 2, pieces: 3, gated: true, masks: vec![7, 3], with_close: false, with_interest: false, repeat_bitfield: false, busy: false, crowd: None, preset: None }, 9),
+            (Resv { peers: 2, pieces: 13, gated: false, masks: vec![1, 3, 6], with_close: false, with_interest: false, repeat_bitfield: true, busy: false, crowd: None, preset: None }, 7),
+            (Resv { peers: 2, pieces: 3, gated: false, masks: vec![1, 6], with_close: false, with_interest: true, repeat_bitfield: true, busy: false, crowd: None, preset: None }, 8),
+            (Resv { peers: 2, pieces: 1, gated: true, masks: vec![1], with_close: false, with_interest: true, repeat_bitfield: false, busy: false, crowd: None, preset: None }, 11),
+            (Resv { peers: 2, pieces: 3, gated: false, masks: vec![3], with_close: true, with_interest: false, repeat_bitfield: false, busy: true, crowd: None, preset: None }, 8),
         ]
     } else {
         vec![
-            (Resv { peers: 2, pieces: 3, gated: false, masks: vec![7, 1], with_close: true, with_interest: false, repeat_bitfield: false, busy: false }, 6),
-            (Resv { peers: 2, pieces: 13, gated: false, masks: vec![7], with_close: false, with_interest: false, repeat_bitfield: false, busy: false }, 6),
-            (Resv { peers: 2, pieces: 13, gated: false, masks: vec![1, 3], with_close: false, with_interest: false, repeat_bitfield: true, busy: false }, 5),
-            (Resv { peers: 1, pieces: 3, gated: false, masks: vec![1, 6], with_close: false, with_interest: true, repeat_bitfield: true, busy: false }, 7),
+            (Resv { peers: 2, pieces: 3, gated: false, masks: vec![7, 1], with_close: true, with_interest: false, repeat_bitfield: false, busy: false, crowd: None, preset: None }, 6),
+            (Resv { peers: 2, pieces: 13, gated: false, masks: vec![7], with_close: false, with_interest: false, repeat_bitfield: false, busy: false, crowd: None, preset: None }, 6),
+            (Resv { peers: 2, pieces: 13, gated: false, masks: vec![1, 3], with_close: false, with_interest: false, repeat_bitfield: true, busy: false, crowd: None, preset: None }, 5),
+            (Resv { peers: 1, pieces: 3, gated: false, masks: vec![1, 6], with_close: false, with_interest: true, repeat_bitfield: true, busy: false, crowd: None, preset: None }, 7),
             // held-back broadcasts: a peer can leave, choke or finish before its task saw SendHave
-            (Resv { peers: 2, pieces: 3, gated: true, masks: vec![7], with_close: true, with_interest: false, repeat_bitfield: false, busy: false }, 6),
+            (Resv { peers: 2, pieces: 3, gated: true, masks: vec![7], with_close: true, with_interest: false, repeat_bitfield: false, busy: false, crowd: None, preset: None }, 6),
             // both peers offer the same single piece (end game: both are asked for it), interest of the
             // peers keeps them connected after the client lost interest; answers to cancelled requests
-            (Resv { peers: 2, pieces: 1, gated: true, masks: vec![1], with_close: false, with_interest: true, repeat_bitfield: false, busy: false }, 8),
+            (Resv { peers: 2, pieces: 1, gated: true, masks: vec![1], with_close: false, with_interest: true, repeat_bitfield: false, busy: false, crowd: None, preset: None }, 8),
             // a busy manager whose command queue is full when the peer's next message arrives
-            (Resv { peers: 1, pieces: 3, gated: false, masks: vec![3], with_close: true, with_interest: false, repeat_bitfield: false, busy: true }, 7),
+            (Resv { peers: 1, pieces: 3, gated: false, masks: vec![3], with_close: true, with_interest: false, repeat_bitfield: false, busy: true, crowd: None, preset: None }, 7),
         ]
     }
 }
@@ -357,6 +402,12 @@ pub fn run(ctx: &Ctx) -> Outcome {
     for (s, depth) in scenarios(thorough) {
         let st = explore::bfs(ctx, &s, depth, ctx.tier.pick(50, 25));
         per.push(json!({"scenario": s.name(), "depth": depth, "states": st.states, "transitions": st.transitions, "depth_completed": st.depth_completed, "choice_points": st.choice_points, "frontier": st.frontier_sizes}));
+        total.merge(&st);
+    }
+    {
+        let (s, depth) = have_path_scenario(thorough);
+        let st = explore::bfs(ctx, &s, depth, ctx.tier.pick(50, 25));
+        per.push(json!({"scenario": s.name(), "depth": depth, "states": st.states, "transitions": st.transitions, "depth_completed": st.depth_completed}));
         total.merge(&st);
     }
     // reservations across tracker-driven reconnects (replies longer than the dial budget, the same
@@ -405,7 +456,7 @@ pub fn run(ctx: &Ctx) -> Outcome {
     let mut o = Outcome::new("model_checking");
     explore::stats_outcome(&total, &mut o);
     o.set("scenarios", Value::Array(per));
-    o.set("rule", json!("events per peer k: B<k>:<mask> bitfield over the first three pieces (first message; in the -rebf scenarios also repeated/late, at most twice), H<k>:<i> have, C<k> choke, U<k> unchoke (repeatable), I<k>/N<k> interest, P<k> correct answer to the oldest outstanding request (also while choking), Q<k> answer to a request the client has cancelled (it crossed the Cancel on the wire; gated scenarios), X<k> disconnect, L<k> release of a held-back broadcast (gated scenarios); in the -fullqueue scenario Z (the manager becomes busy and 64 statistics reports of the rest of the swarm fill its command queue to the last slot, so a task's next command finds no room) and R (the manager comes back and works the queue off; judged from then on); single-block pieces; torrents of 3 pieces (end game) and 13 pieces of which only 3 are ever advertised (no end game); every Fisher-Yates tie-break of the chooser is a choice point; states = canonical snapshots of manager + all connection tasks + piece files + monitor (rate counters dropped: no timer event). Plus three full-session scenarios borrowed from C02 (reservation-*): a 12-entry tracker reply naming one address twice, a host re-listed under a new peer id, a seeder plus a peer that leaves and is offered again; there only the manager's reservation records are judged (a Reserved piece has a connected, unchoking holder; no task panics)."));
+    o.set("rule", json!("events per peer k: B<k>:<mask> bitfield over the first three pieces (first message; in the -rebf scenarios also repeated/late, at most twice), H<k>:<i> have, C<k> choke, U<k> unchoke (repeatable), I<k>/N<k> interest, P<k> correct answer to the oldest outstanding request (also while choking), Q<k> answer to a request the client has cancelled (it crossed the Cancel on the wire; gated scenarios), X<k> disconnect, L<k> release of a held-back broadcast (gated scenarios); in the -fullqueue scenario Z (the manager becomes busy and 64 statistics reports of the rest of the swarm fill its command queue to the last slot, so a task's next command finds no room) and R (the manager comes back and works the queue off; judged from then on); single-block pieces; torrents of 3 pieces (end game) and 13 pieces of which only 3 are ever advertised (no end game); every Fisher-Yates tie-break of the chooser is a choice point; states = canonical snapshots of manager + all connection tasks + piece files + monitor (rate counters dropped: no timer event). Plus the Have-path scenario (-crowd2-preset[1, 1]: two real peers hold piece 0, two choking manager-only peers hold piece 1, bitfields sent during setup, 13 pieces): a piece freed by a choking / leaving holder competes with a more common piece that the idle holder announces; record, reservation, request and completion must speak of the chosen piece, what is counted as owned or announced must be stored. Plus three full-session scenarios borrowed from C02 (reservation-*): a 12-entry tracker reply naming one address twice, a host re-listed under a new peer id, a seeder plus a peer that leaves and is offered again; there only the manager's reservation records are judged (a Reserved piece has a connected, unchoking holder; no task panics)."));
     o.assume("invariants are evaluated in quiescent states (every queued command handled); reduction argument in DESIGN.md 0.2");
     o
 }
@@ -422,7 +473,7 @@ pub fn replay(_ctx: &Ctx, r: &Value) -> i32 {
         }
     }
     for thorough in [false, true] {
-        for (s, _) in scenarios(thorough) {
+        for (s, _) in scenarios(thorough).into_iter().chain(std::iter::once(have_path_scenario(thorough))) {
             if s.name() == name {
                 return explore::replay_verbose(&s, &explore::hist_from_json(&r["history"]), "C12");
             }
